@@ -43,3 +43,13 @@ Proof. unfold ad_msg_delete_list. break_match; reflexivity. Qed.
 
 #[export] Hint Rewrite seqs_subs seqs_dellog seqs_owner seqs_seqid seqs_delid seqs_sub_create seqid_sub_create
   seqs_subs_update seqid_subs_update seqs_delete_list seqid_delete_list : topic.
+
+Lemma NoDup_app_single {A} (l : list A) (x : A) : NoDup l -> ~ In x l -> NoDup (l ++ [x]).
+Proof.
+  induction l as [|y l IH]; intros H1 H2; cbn.
+  - constructor; [intros []|constructor].
+  - inversion H1 as [|? ? Hy Hl]; subst. constructor.
+    + intros Hin. apply in_app_or in Hin. destruct Hin as [Hin|[Hin|[]]]; [contradiction|].
+      subst. apply H2. now left.
+    + apply IH; [assumption|]. intros Hin. apply H2. now right.
+Qed.
